@@ -52,8 +52,12 @@ def main():
                env=dict(os.environ, PYTHONPATH=wt))
         out["repo_tests_on_mutant"] = r.stdout.strip()[-300:]
         tests_ok = " passed" in r.stdout and " failed" not in r.stdout and "error" not in r.stdout.lower()
-        r = sh("timeout 120 /venv/bin/python %s %s" % (demo, wt), env=dict(os.environ, PYTHONPATH=wt))
-        out["demo_on_mutant"] = {"exit": r.returncode, "tail": r.stdout[-300:]}
+        # (a demonstration that depends on a race may need more than one attempt to show the failure)
+        for attempt in range(1, 5):
+            r = sh("timeout 120 /venv/bin/python %s %s" % (demo, wt), env=dict(os.environ, PYTHONPATH=wt))
+            out["demo_on_mutant"] = {"exit": r.returncode, "tail": r.stdout[-300:], "attempts": attempt}
+            if r.returncode not in (0, 124):
+                break
         confirmed = (out["demo_on_clean_tree"]["exit"] == 0 and out["demo_on_mutant"]["exit"] not in (0, 124) and tests_ok)
         out["confirmed"] = confirmed
         for p in [prop] + extra:
